@@ -127,6 +127,9 @@ def poly(prog: Optional[Program], module: Optional[Module], e: ast.AST, sym: Sym
             return out
     if isinstance(e, ast.Call) and norm(e.func) in ('float', 'int', '_float', '_int', 'float_', 'int_') and len(e.args) == 1:
         return poly(prog, module, e.args[0], sym, env)
+    s = sym(e)  # let the caller name opaque sub-expressions (e.g. len(x))
+    if s is not None:
+        return p_sym(s)
     raise NotLinear(norm(e))
 
 
